@@ -148,9 +148,9 @@ EXTENDS DesyncObs, Json, IOUtils, TLCExt
 Rec == ndJsonDeserialize(IOEnv.TRACE)
 VARIABLES h, l
 IsPool(t) == t \\in {%(pool)s}
-Apply1(hh, t, ev) ==
+Apply1(hh, t, ev, e) ==
   LET k == ev[1] a == ev[2] b == ev[3] IN
-  CASE k = "call"     -> ObsCall(hh, t, a)
+  CASE k = "call"     -> IF K(a) = "try_sync" THEN ObsTryRest(ObsCall(hh, t, a), a, e.q[O(a)] = <<"Idle", 0, 0>>) ELSE ObsCall(hh, t, a)
     [] k = "ret"      -> ObsRet(hh, t, a, b)
     [] k = "start"    -> ObsStart(hh, t, a)
     [] k = "end"      -> ObsEnd(hh, t, a)
@@ -171,9 +171,9 @@ Apply1(hh, t, ev) ==
     [] k = "out_end"  -> ObsOutEnd(hh, a)
     [] k \in {"in_end", "in_dropped", "closure_dropped", "stream_dropped"} -> PFlag(hh, a, k)
     [] OTHER          -> hh
-RECURSIVE ApplyAll(_, _, _, _)
-ApplyAll(hh, t, evs, i) == IF i > Len(evs) THEN hh ELSE ApplyAll(Apply1(hh, t, evs[i]), t, evs, i + 1)
-StepH(hh, e) == ApplyAll(IF e.op \\in {"wait", "park", "join"} /\\ e.tb THEN ObsBlocked(hh, e.t) ELSE hh, e.t, e.obs, 1)
+RECURSIVE ApplyAll(_, _, _, _, _)
+ApplyAll(hh, t, evs, i, e) == IF i > Len(evs) THEN hh ELSE ApplyAll(Apply1(hh, t, evs[i], e), t, evs, i + 1, e)
+StepH(hh, e) == ApplyAll(IF e.op \\in {"wait", "park", "join"} /\\ e.tb THEN ObsBlocked(hh, e.t) ELSE hh, e.t, e.obs, 1, e)
 QSOf(e) == [o \\in Objs |-> <<e.q[o][1], e.q[o][2]>>]
 OTInit == h = InitH /\\ l \\in {i + 1 : i \\in {j \\in 1..Len(Rec) : Rec[j].kind = "run"}}
 OTNext == /\\ l <= Len(Rec)
